@@ -21,7 +21,7 @@ ARRIVALS = ['identity','reversed','interleave','rotate']
 
 def _classify(v): return v['what'].split(':')[0][:100]
 
-@obligation('C01','emulated_configs', bounds={'quick':"11 programs x experiment seed {1,7} x maxtasksperchunk in [0,4] (z3 int through the real ChunkTasks) x 4 arrival orders of worker outputs; second construction+run equals the first",
+@obligation('C01','emulated_configs', bounds={'quick':"13 programs x experiment seed {1,7} x maxtasksperchunk in [0,4] (z3 int through the real ChunkTasks) x 4 arrival orders of worker outputs; second construction+run equals the first",
                                               'thorough':"experiment seeds {1,7,13,42}; maxtasksperchunk in [0,7]"},
             functions=FUNCS, params=lambda tier: [dict(prog=p, seed=s) for p in exp.PROGRAMS for s in ((1,7) if tier == 'quick' else (1,7,13,42))], classify=_classify, budget={'quick':60,'thorough':900})
 def emulated_configs(sym, prog, seed):
@@ -42,10 +42,11 @@ def real_params(tier):
     progs = list(exp.PROGRAMS)
     cfgs = [(2,1,0),(3,0,2),(2,2,1),(2,0,4),(3,1,3)]
     if tier == 'quick':
-        return [dict(prog=progs[(seed+i*3) % len(progs)], cfg=cfgs[(seed+i) % len(cfgs)]) for i in range(2)]
+        # one fixed run in which a worker is limited to ONE chunk that holds several tasks, plus two picked by VERIF_SEED
+        return [dict(prog='chunk_shuffle', cfg=(2,1,0))] + [dict(prog=progs[(seed+i*3) % len(progs)], cfg=cfgs[(seed+i) % len(cfgs)]) for i in range(2)]
     return [dict(prog=pr, cfg=cfgs[(seed+i+j*2) % len(cfgs)]) for i,pr in enumerate(progs) for j in range(2)]
 
-@obligation('C01','real_multiprocess', bounds={'quick':"2 real spawn-based runs (program and (processes,maxchunksperchild,maxtasksperchunk) picked by VERIF_SEED) must equal the in-process Result and the emulation",
+@obligation('C01','real_multiprocess', bounds={'quick':"3 real spawn-based runs (one fixed: a chunked program with maxchunksperchild=1; two with program and (processes,maxchunksperchild,maxtasksperchunk) picked by VERIF_SEED) must equal the in-process Result and the emulation",
                                                'thorough':"every program under 2 of the 5 configurations (22 real runs)"},
             functions=FUNCS, params=real_params, classify=_classify, raw=True, budget={'quick':150,'thorough':600})
 def real_multiprocess(tier, param, replay_model=None):
